@@ -82,7 +82,19 @@ func runC09(c *Case, out func(string)) {
 		}
 		oracleOK = false
 	}
+	// C08 at the level of the log: a number the log assigns itself (Append, AppendBatch) is above
+	// every number accepted before, whoever chose it
+	var maxSeen uint64
+	haveSeen := false
+	assigned := func(call string, s uint64) {
+		if haveSeen && s <= maxSeen {
+			fail(fmt.Sprintf("%s was stamped %d although %d had been accepted before: the log's numbers do not strictly increase", call, s, maxSeen))
+		}
+	}
 	record := func(seq uint64, op uint8, k, v []byte) {
+		if !haveSeen || seq > maxSeen {
+			maxSeen, haveSeen = seq, true
+		}
 		if op == wal.OpTypeDelete {
 			v = nil
 		}
@@ -100,6 +112,7 @@ func runC09(c *Case, out func(string)) {
 				out("A " + werr(err))
 			} else {
 				out("A " + num(s))
+				assigned(l[0], s)
 				record(s, opOf(l[0]), k, v)
 			}
 		case "del":
@@ -109,6 +122,7 @@ func runC09(c *Case, out func(string)) {
 				out("A " + werr(err))
 			} else {
 				out("A " + num(s))
+				assigned("del", s)
 				record(s, wal.OpTypeDelete, k, nil)
 			}
 		case "raw":
@@ -118,6 +132,7 @@ func runC09(c *Case, out func(string)) {
 				out("A " + werr(err))
 			} else {
 				out("A " + num(s))
+				assigned("raw", s)
 				record(s, opOf(l[1]), k, v)
 			}
 		case "seq":
@@ -160,6 +175,9 @@ func runC09(c *Case, out func(string)) {
 				out("B " + werr(err))
 			} else {
 				out("B " + num(s))
+				if len(es) > 0 {
+					assigned("batch", s)
+				}
 				for _, e := range es {
 					record(s, e.Type, e.Key, e.Value)
 				}
@@ -355,7 +373,14 @@ func lenTok(r *rand.Rand, n int) string {
 func genC09(w *bufio.Writer, seed int64, n int, tier string) {
 	r := rand.New(rand.NewSource(seed*7919 + 9))
 	for ci := 0; ci < n; ci++ {
-		fmt.Fprintf(w, "case c09-%d-%d\n", seed, ci)
+		genC09Case(w, r, fmt.Sprintf("case c09-%d-%d", seed, ci))
+	}
+}
+
+// one program over the log's own API (also used by C08 for its log-level cases)
+func genC09Case(w *bufio.Writer, r *rand.Rand, caseLine string) {
+	{
+		fmt.Fprintf(w, "%s\n", caseLine)
 		nops := 1 + r.Intn(14)
 		if r.Intn(8) == 0 {
 			fmt.Fprintf(w, "start %s\n", num([]uint64{1, 2, 1 << 32, 1<<63 + 5, 1 << 40, wal.MaxSequenceNumber - 2}[r.Intn(6)]))
